@@ -234,6 +234,13 @@ def check_dict(case):
                 order.append(x)
         pairs += [(k, x) for x in vals]
     _check_built(u, vs, before, order, pairs, case["cls"], [pu] + [v for v in vs if hasattr(v, "vertices")])
+    if not inp:
+        # an empty description: each call still returns a NEW universe of its own
+        from edgegraph.structure import Vertex
+
+        u.add_vertex(Vertex())
+        u_again = adjlist.load_adj_dict({}, C.LINK_CLASSES[case["cls"]])
+        require(u_again is not u and len(u_again.vertices) == 0, "returned-object-not-fresh", "load_adj_dict({}) returned the universe of an earlier call (already populated by its caller)")
     require(snap([outside])[0][1] == [], "outside-vertex-touched", "a vertex not named in the input joined a universe")
     selfe = any(a == b for a, b in pairs)
     rep = len(set(pairs)) < len(pairs)
